@@ -152,6 +152,9 @@ def check(case, ctx):
         ctx.count('value_not_constructible')
         return
     shared = bool(case.get('share')) and share_in(value)
+    if case.get('share_item', True) and proj.share_index_item(value, m):
+        shared = True
+        ctx.count('index_item_shared_with_attribute')
     try:
         projection = proj.Projector(m).project(value)
         tree = to_pt(projection)
